@@ -7,13 +7,15 @@ EmitTree ==
   IsTree =>
   PrintT(<<"CASE", ToJson([min |-> RenderMin(x), full |-> RenderFull(x),
                            exp |-> Proj(Fold(x))])>>)
-\* the `round` universe: also what kinds of roundings the tree contains and what the
+\* the `round` universe and the numeral spellings: also what kinds of roundings the tree contains and what the
 \* value selects in #ifexpr (truth) and plural (comparison with 1)
 EmitTie ==
   IsTree =>
   LET f == Fold(x) IN
   PrintT(<<"CASE", ToJson([min |-> RenderMin(x), full |-> RenderFull(x), exp |-> Proj(f),
                            ties |-> TieKinds(x),
+                           fam |-> IF IsSpellTree(x) THEN "spell" ELSE "",
+                           spell |-> SpellKinds(x),
                            truth |-> IF f.kind = "val" THEN Truth(f) ELSE "u",
                            one |-> IF f.kind = "val" THEN Cmp3(f, One) ELSE "u"])>>)
 EmitSoup ==
